@@ -398,6 +398,24 @@ def wrappers_first_use(run):
         run.violation(name, dict(call='the package-level functions with year=%r, first thing in a fresh interpreter' % yr, observed=w, required=o, input=['wrapfirst']), True)
 
 
+def datafile_obligations(run, labels=('2015', '2023', 'athlons')):
+    ag = _ag()
+    # the table a grader works from IS its data file (every spec below reads the rows through get_data(): that link is an obligation)
+    import json as _json, os as _os
+    for label, obj in [(l, ag.AthlonsAgeGrader() if l == 'athlons' else ag.AgeGrader(l)) for l in labels]:
+        name = 'get_data/%s-table-in-use-is-the-data-file' % label
+        try:
+            fn = _os.path.join(_os.path.dirname(ag.__file__), obj.data_file_name)
+            with open(fn) as f_:
+                want = _json.load(f_)
+            ok = obj.get_data() == want and obj.get_data() == type(obj)(*(() if label == 'athlons' else (label,))).get_data()
+        except Exception as e:
+            ok, want = False, repr(e)
+        run.record(name, 'ground', 'proved' if ok else 'refuted', 'ground-evaluation', 0.0, 'tables')
+        if not ok:
+            run.violation(name, dict(call='%s.get_data()' % type(obj).__name__, observed='differs from %s' % getattr(obj, 'data_file_name', '?'), input=['datafile', label]), False)
+
+
 def _work(job):
     if job[0] == 'wrap':
         return ('ground',) + wrappers_chunk(job[1])
@@ -412,6 +430,15 @@ def _work(job):
 
 def replay(rep):
     inp = rep['input']
+    if inp and inp[0] == 'datafile':
+        import json as _json, os as _os
+        ag_ = _ag()
+        obj = ag_.AthlonsAgeGrader() if inp[1] == 'athlons' else ag_.AgeGrader(inp[1])
+        with open(_os.path.join(_os.path.dirname(ag_.__file__), obj.data_file_name)) as f_:
+            bad = obj.get_data() != _json.load(f_)
+        print('replay %s: get_data() %s the data file' % (rep['obligation'], 'differs from' if bad else 'equals'))
+        print('VIOLATION reproduced' if bad else 'not reproduced on this tree')
+        return 1 if bad else 0
     if inp and inp[0] == 'wrapfirst':
         class _R(object):
             violations = []
@@ -489,6 +516,7 @@ def main(tier, seed):
                 J.append(('sym', (year, g, ri)))
                 J.append(('gr', (year, g, ri)))
     wrappers_first_use(run)
+    datafile_obligations(run)
     J += [('ath', ('m',)), ('ath', ('f',)), ('wrap', ('m',)), ('wrap', ('f',))]
     results = report.pool_map(_work, J)
     gn = 0
